@@ -93,6 +93,10 @@ def main():
                 if ci % 2:     # the bundled sources carry the datetime they were given
                     s = reg.source(plan, uberjob.stores.LiteralSource(0, ds["s"]))
                     s2 = reg.source(plan, uberjob.stores.ModifiedTimeSource(ds["s2"]))
+                elif c["s"] == c["s2"] and ci % 4 == 0:
+                    shared = St("s", ds["s"], log)      # ONE store object registered as the source of two nodes
+                    s = reg.source(plan, shared)
+                    s2 = reg.source(plan, shared)
                 else:
                     s = reg.source(plan, St("s", ds["s"], log))
                     s2 = reg.source(plan, St("s2", ds["s2"], log))
